@@ -301,7 +301,7 @@ def _run_ob(ob, tier, workdir):
     cb0 = ['cbmc', binp] + [f for f in CBMC_FLAGS if not f.startswith('-no:') and ('-no:' + f) not in ob.flags] + [f for f in ob.flags if not f.startswith('-no:')]
     if ob.object_bits: cb0 += ['--object-bits', str(ob.object_bits)]
     if ob.kissat: cb0 += ['--external-sat-solver', 'kissat']
-    to = ob.timeout if tier == 'quick' else max(ob.timeout, 900)
+    to = max(ob.timeout, 900)      # per CBMC call; generous on purpose: a time-out is exit 2 (undecided), never a violation, but it still breaks a check
     memgb = ob.mem_gb or int(os.environ.get('VERIF_MEM_GB', '12'))
     uset = {}
     if ob.unwindset:
